@@ -150,7 +150,15 @@ fn split_obs(dic: &D, m: &Morpheme<D>, mode: Mode, tag: &str, sub_panics: &mut V
 
 fn whole_here(dic: D, text: &str, mode: Mode) -> Whole {
     let mut w = Whole { orig: text.to_string(), ..Default::default() };
-    let mut tok = StatefulTokenizer::new(dic.clone(), mode);
+    // one short text in three is analysed the way the CLI's `-d` does it: a tokenizer with the public debug flag on (the
+    // lattice and the paths are dumped to stdout) that analysed a LONGER text before; totality does not depend on either
+    let h = text.bytes().fold(0u32, |a, b| a.wrapping_mul(31).wrapping_add(b as u32));
+    let recycled_debug = !text.is_empty() && text.chars().count() <= 24 && h % 3 == 0;
+    let mut tok = if recycled_debug { StatefulTokenizer::create(dic.clone(), true, mode) } else { StatefulTokenizer::new(dic.clone(), mode) };
+    if recycled_debug {
+        let longer = format!("{}{}あいう", text, text);
+        let _ = catch(|| { tok.reset().push_str(&longer); let _ = tok.do_tokenize(); });
+    }
     if let Err(msg) = catch(|| tok.reset().push_str(text)) {
         w.outcome = "PANIC".into(); w.stage = "reset".into(); w.msg = msg; return w;
     }
